@@ -209,6 +209,12 @@ class Index:
             for x in walk(n):
                 if x.get('id'):
                     self.by_id.setdefault(x['id'], x)
+            # classes declared inside the function body (local visitors and the like)
+            for x in walk(n):
+                if x is not n and x.get('kind') in RECORD_KINDS and x.get('completeDefinition') and x.get('name') and not x.get('isImplicit'):
+                    lq = qn + '::' + x['name']
+                    if lq not in self.records:
+                        self._index(x, (qn.split('::')), None)
             return
         if k == 'VarDecl':
             qn = '::'.join(scope + [n.get('name', '')])
